@@ -18,12 +18,21 @@ enum Stretch {
     SameBar,
     /// zero volume, prices moving
     ZeroVolume,
+    /// the level alternately as a scalar and as a one-price bar on the same instance
+    Alternating,
 }
 
 fn stretch_op(kind: Stretch, level: f64, j: usize) -> Op {
     match kind {
         Stretch::Scalar => Op::S(level),
         Stretch::OnePriceBar => Op::B(Bar { o: level, h: level, l: level, c: level, v: 1.0 }),
+        Stretch::Alternating => {
+            if j % 2 == 0 {
+                Op::S(level)
+            } else {
+                Op::B(Bar { o: level, h: level, l: level, c: level, v: 1.0 })
+            }
+        }
         Stretch::SameBar => Op::B(Bar { o: level, h: level * 1.5, l: level * 0.5, c: level, v: 2.0 }),
         Stretch::ZeroVolume => {
             let p = level * (1.0 + (j % 3) as f64 * 0.25);
@@ -45,6 +54,7 @@ fn plan(cfg: &Cfg) -> Vec<(Stretch, usize)> {
     };
     if cfg.kind.has_scalar() {
         v.push((Stretch::Scalar, w));
+        v.push((Stretch::Alternating, w));
     }
     v.push((Stretch::OnePriceBar, w));
     match cfg.kind {
@@ -146,9 +156,14 @@ fn check_cfg(ctx: &Ctx, cfg: &Cfg, dp: usize, stretch_len: usize) -> JobOut {
             // flat from the very first input at extreme magnitudes (with an active prefix of ordinary size the
             // squares of the jump overflow f64, which is not a flat-window matter)
             let extreme: Vec<f64> = if pre.is_empty() { vec![1e200, 1e-200, 1e300] } else { vec![] };
-            for (&level, after_reset) in levels.iter().chain(extreme.iter()).flat_map(|l| [(l, false), (l, true)]) {
+            for (&level, after_reset, cross) in levels.iter().chain(extreme.iter()).flat_map(|l| [(l, false, false), (l, true, false), (l, false, true)]) {
                 // the same stretch after prefix + reset(): the instance is re-used, t and M restart
                 if after_reset && pre.is_empty() {
+                    continue;
+                }
+                // cross: the active prefix arrives through the OTHER input path of the same instance
+                // (bars before a scalar stretch, scalars before a one-price-bar stretch)
+                if cross && (pre.is_empty() || !cfg.kind.has_scalar() || !matches!(st, Stretch::Scalar | Stretch::OnePriceBar | Stretch::Alternating)) {
                     continue;
                 }
                 // PPO divides by its slow average: a stream that changes sign drives that average through 0,
@@ -160,7 +175,8 @@ fn check_cfg(ctx: &Ctx, cfg: &Cfg, dp: usize, stretch_len: usize) -> JobOut {
                     out.stats.capped.push(format!("time cap in {}", cfg.descr()));
                     return out;
                 }
-                let mut ops: Vec<Op> = pre.iter().enumerate().map(|(i, &a)| prefix_op(cfg, pv[a as usize], st, i)).collect();
+                let pst = if !cross { if st == Stretch::Alternating { Stretch::Scalar } else { st } } else if st == Stretch::Scalar { Stretch::OnePriceBar } else if st == Stretch::Alternating { Stretch::OnePriceBar } else { Stretch::Scalar };
+                let mut ops: Vec<Op> = pre.iter().enumerate().map(|(i, &a)| prefix_op(cfg, pv[a as usize], pst, i)).collect();
                 if after_reset {
                     ops.push(Op::Reset);
                 }
@@ -328,7 +344,7 @@ pub fn run(ctx: &Ctx) -> CheckResult {
     res.extra.insert("configurations".into(), json!(jobs.len()));
     res.rule = "case = (configuration, active prefix, stretch kind, flat level, step of the stretch); the real output at every step whose reference window is degenerate (min(t,w) trailing inputs flat / zero-flow) must be finite, inside the documented range, and equal the documented neutral value where one is defined; non-trivial = non-empty active prefix".into();
     res.bounds = format!(
-        "all 22 indicators, periods 1..8; every active prefix over {{2, 0.3, 1e6, 7.7, 1e9}} up to depth {}, each also followed by reset() (exponential-memory kinds at periods 1..3: {}), levels {{1, 0.1, 0.7, 3.3, 1e6, -1, -3.3}} (and 1e200, 1e-200, 1e300 for streams flat from the start), stretch kinds scalar / one-price bar / same bar (CCI, MFI) / zero volume (MFI, OBV), every stretch length 1..{} ({} for exponential-memory kinds{}); level sweep for periods 1..3: all two-decimal prices 0.01..20.00 and 2000 log-uniform levels in [1e-3, 1e6]",
+        "all 22 indicators, periods 1..8; every active prefix over {{2, 0.3, 1e6, 7.7, 1e9}} up to depth {}, each also followed by reset(), and each also fed through the other input path (bars before a scalar stretch and vice versa) (exponential-memory kinds at periods 1..3: {}), levels {{1, 0.1, 0.7, 3.3, 1e6, -1, -3.3}} (and 1e200, 1e-200, 1e300 for streams flat from the start), stretch kinds scalar / one-price bar / both alternating on one instance / same bar (CCI, MFI) / zero volume (MFI, OBV), every stretch length 1..{} ({} for exponential-memory kinds{}); level sweep for periods 1..3: all two-decimal prices 0.01..20.00 and 2000 log-uniform levels in [1e-3, 1e6]",
         4,
         3,
         if th { 600 } else { 64 },
